@@ -310,6 +310,8 @@ def run_shard(spec, seed, tier, stats):
 
 def check_session(scenario, schedule, stats=None, **kw):
     from vf.props import _session
+    if kw.get('policy') is not None:
+        return _session.check_handshake(scenario, schedule, stats)
     if any(b['calls'] != [A.PASS] * 4 or b['cards'] for b in scenario['boards']):
         return _session.check_relayed(scenario, schedule, stats)
     return _session.check_server_built(scenario, schedule, stats)
